@@ -25,8 +25,8 @@ package checks
 // request written to <verif>/.build/c38-inflight/<batch>.json BEFORE it is
 // sent. A child that dies is a finding (`...:crash:<site>`), attributed to the
 // request on disk and re-tried in isolation; the rest of the batch continues in
-// a new child. A request that does not return within 20 s of wall clock makes
-// the run inconclusive (never a violation).
+// a new child. A request that does not return within 60 s of wall clock is counted as an inconclusive request (more than 3 quick / 30 thorough of them make
+// the run inconclusive); never a violation.
 
 import (
 	"bytes"
@@ -51,6 +51,7 @@ import (
 	"strconv"
 	"strings"
 	"sync"
+	"sync/atomic"
 	"syscall"
 	"time"
 	"unicode/utf8"
@@ -69,7 +70,7 @@ import (
 )
 
 const (
-	c38WatchdogSeconds = 20
+	c38WatchdogSeconds = 60
 	c38RandPerCase     = 24
 	c38MinimizeBudget  = 60
 )
@@ -158,6 +159,15 @@ func c38Merge(r *core.Run, a *c38Agg) {
 		}
 	}
 	for _, s := range a.Inconclusive {
+		if strings.HasPrefix(s, "watchdog: ") {
+			// one request abandoned by the wall-clock watchdog is an inconclusive CASE (counted, listed); the
+			// run only becomes inconclusive beyond a handful (a loaded machine stretches the slowest inputs,
+			// e.g. 5 KiB of garbage in a script, past any fixed deadline)
+			r.Seen("inconclusive_requests_abandoned_by_the_watchdog", c38Trunc(s, 220))
+			if n := atomic.AddInt64(&c38Abandoned, 1); n <= int64(r.N(3, 30)) {
+				continue
+			}
+		}
 		r.Inconclusive(s)
 	}
 	for _, s := range a.Samples {
@@ -499,6 +509,8 @@ func c38NextAfter(done []int, next int) int {
 	}
 	return m
 }
+
+var c38Abandoned int64
 
 func c38Spawn(exe string, r *core.Run, scratch, loop string, from, to int, out, inflight string, onlyReq, startSeq int) (stderr string, exit int, timedOut bool) {
 	ctx, cancel := context.WithTimeout(context.Background(), 8*time.Minute)
